@@ -779,6 +779,13 @@ func execLoad(full Case) hx.Verdict {
 	if n >= 3 {
 		v.Label("files>=3")
 	}
+	switch nk := len(want); {
+	case nk > 2048:
+		v.Label("load:keys>2048")
+		fallthrough
+	case nk > 512:
+		v.Label("load:keys>512")
+	}
 	v.Label(fmt.Sprintf("load:gomaxprocs=%d", c.GoMaxProcs))
 	v.Label(fmt.Sprintf("load:maxjob=%d", c.MaxJob))
 	if len(c.Other) > 0 {
